@@ -109,38 +109,43 @@ Definition link (s : st) (g : ghost) : Prop :=
 
 Definition answering (s : st) : Prop := sig s = HaveRemoteOffer \/ sig s = HaveLocalPranswer.
 
-Record ginv (s : st) (g : ghost) : Prop := {
-  gi_inv : inv s;
-  gi_chain : chain_rev (g_applied g);
-  gi_nodup : Forall (@NoDup (option string)) (g_applied g);
-  gi_link : link s g;
-  gi_offer : sig s = Stable -> g_offer_fresh g = true ->
-             exists d, last_offer s = Some d /\ prefix_of (g_last g) (sec_mids d) /\ NoDup (sec_mids d);
-  gi_answer : answering s -> g_answer_fresh g = true ->
+(* the part of the invariant that carries the extension: *)
+Record ginv_l (s : st) (g : ghost) : Prop := {
+  gl_chain : chain_rev (g_applied g);
+  gl_link : link s g;
+  gl_offer : sig s = Stable -> g_offer_fresh g = true ->
+             exists d, last_offer s = Some d /\ prefix_of (g_last g) (sec_mids d);
+  gl_answer : answering s -> g_answer_fresh g = true ->
               exists a, last_answer s = Some a /\ g_last g = Some (sec_mids a) }.
 
-Lemma ginv_init : ginv init ghost0.
-Proof.
-  constructor; cbn; auto using inv_init.
-  - intros _ [=].
-  - intros _ [=].
-Qed.
+(* ... and the part that makes "the index of a mid" well defined: *)
+Record ginv_d (s : st) (g : ghost) : Prop := {
+  gd_inv : inv s;
+  gd_nodup : Forall (@NoDup (option string)) (g_applied g);
+  gd_offer : sig s = Stable -> g_offer_fresh g = true ->
+             exists d, last_offer s = Some d /\ NoDup (sec_mids d) }.
+
+Lemma ginv_l_init : ginv_l init ghost0.
+Proof. constructor; cbn; auto; intros _ [=]. Qed.
+Lemma ginv_d_init : ginv_d init ghost0.
+Proof. constructor; cbn; auto using inv_init. intros _ [=]. Qed.
 
 (* what a call leaves alone *)
 Definition frame (s s' : st) : Prop :=
   sig s' = sig s /\ cur_remote s' = cur_remote s /\ pend_remote s' = pend_remote s /\
   last_offer s' = last_offer s /\ last_answer s' = last_answer s.
 
-Lemma frame_ginv s s' g : frame s s' -> inv s' -> ginv s g -> ginv s' g.
+Lemma frame_ginv_l s s' g : frame s s' -> ginv_l s g -> ginv_l s' g.
 Proof.
-  intros (Fs & Fc & Fp & Fo & Fa) Hinv [_ Hch Hnd Hl Ho Ha]. constructor; auto.
+  intros (Fs & Fc & Fp & Fo & Fa) [Hch Hl Ho Ha]. constructor; auto.
   - unfold link in *. rewrite Fs, Fc, Fp. exact Hl.
   - rewrite Fs, Fo. exact Ho.
   - unfold answering. rewrite Fs, Fa. exact Ha.
 Qed.
-
-Lemma frame_refl s : frame s s.
-Proof. repeat split. Qed.
+Lemma frame_ginv_d s s' g : frame s s' -> inv s' -> ginv_d s g -> ginv_d s' g.
+Proof.
+  intros (Fs & Fc & Fp & Fo & Fa) Hinv [_ Hnd Ho]. constructor; auto. rewrite Fs, Fo. exact Ho.
+Qed.
 
 Lemma nodup_mids_of_r d : rdesc_ok d -> NoDup (mids_of_r d).
 Proof. intro H. unfold mids_of_r. apply nodup_map_some. exact H. Qed.
@@ -180,9 +185,6 @@ Proof. unfold set_local. intros ->. reflexivity. Qed.
 Lemma applies_none_frame_remote s ty d :
   remote_next (sig s) ty = None -> fst (set_remote s ty d) = s.
 Proof. unfold set_remote. intros ->. reflexivity. Qed.
-
-Lemma hd_error_cons {A} (x : A) l : hd_error (x :: l) = Some x.
-Proof. reflexivity. Qed.
 
 (* a new description m is applied on top of the chain *)
 Lemma chain_push (g : ghost) (m : list (option string)) :
@@ -240,43 +242,34 @@ Lemma remote_next_cases g ty g' :
   (ty = TAnswer /\ (g = HaveLocalOffer \/ g = HaveRemotePranswer) /\ g' = Stable).
 Proof. destruct ty, g; cbn; intros [= <-]; auto 10. Qed.
 
-Lemma gstep_ginv s g o :
-  ginv s g -> chain_guard s g o ->
-  ginv (fst (step s o)) (ghost_step g s o (snd (step s o))).
+(* local calls that neither generate nor apply a description *)
+Definition plain (o : op) : Prop :=
+  match o with
+  | AddTransceiver _ _ | AddTrack _ | RemoveTrack _ | StopTransceiver _ | CreateDataChannel => True
+  | _ => False
+  end.
+Lemma plain_frame s o : plain o -> frame s (fst (step s o)).
 Proof.
-  intros HI Hg. pose proof HI as [Hinv Hch Hnd Hl Ho Ha].
-  assert (Hinv' : inv (fst (step s o))).
-  { apply step_inv; [exact Hinv| |].
-    - intros ty d ->. exact (proj1 Hg).
-    - intros ->. exact (proj1 Hg). }
-  destruct o.
-  - (* AddTransceiver *)
-    assert (F : frame s (fst (step s (AddTransceiver k d)))).
-    { cbn [step]. unfold add_transceiver. destruct d; try destruct (has_codecs s k); (repeat split). }
-    replace (ghost_step g s _ _) with g by (unfold ghost_step; cbn; destruct (add_transceiver s k d); reflexivity).
-    eapply frame_ginv; eauto.
-  - (* AddTrack *)
-    assert (F : frame s (fst (step s (AddTrack k)))).
-    { cbn [step]. unfold add_track. destruct (reuse_for_track k (trs s)); (repeat split). }
-    replace (ghost_step g s _ _) with g by (unfold ghost_step; cbn; destruct (add_track s k); reflexivity).
-    eapply frame_ginv; eauto.
-  - (* RemoveTrack *)
-    assert (F : frame s (fst (step s (RemoveTrack i)))).
-    { cbn [step]. unfold remove_track. destruct (nth_error (trs s) i) as [t|]; [|(repeat split)].
-      destruct (t_sender t); (repeat split). }
-    replace (ghost_step g s _ _) with g by (unfold ghost_step; cbn; destruct (remove_track s i); reflexivity).
-    eapply frame_ginv; eauto.
-  - (* StopTransceiver *)
-    assert (F : frame s (fst (step s (StopTransceiver i)))).
-    { cbn [step]. unfold stop_transceiver. destruct (upd_nth i stop_tr (trs s)); (repeat split). }
-    replace (ghost_step g s _ _) with g by (unfold ghost_step; cbn; destruct (stop_transceiver s i); reflexivity).
-    eapply frame_ginv; eauto.
-  - (* CreateDataChannel *)
-    assert (F : frame s (fst (step s CreateDataChannel))) by (cbn; (repeat split)).
-    replace (ghost_step g s _ _) with g by reflexivity.
-    eapply frame_ginv; eauto.
+  destruct o; cbn [plain step]; intro H; try contradiction.
+  - unfold add_transceiver. destruct d; try destruct (has_codecs s k); repeat split.
+  - unfold add_track. destruct (reuse_for_track k (trs s)); repeat split.
+  - unfold remove_track. destruct (nth_error (trs s) i) as [t|]; [|repeat split]. destruct (t_sender t); repeat split.
+  - unfold stop_transceiver. destruct (upd_nth i stop_tr (trs s)); repeat split.
+  - repeat split.
+Qed.
+Lemma plain_ghost g s o out : plain o -> ghost_step g s o out = g.
+Proof. destruct o; cbn [plain]; intro H; try contradiction; reflexivity. Qed.
+
+(* the extension part *)
+Lemma gstep_ginv_l s g o :
+  ginv_l s g -> chain_guard_light s g o ->
+  ginv_l (fst (step s o)) (ghost_step g s o (snd (step s o))).
+Proof.
+  intros HI Hg. pose proof HI as [Hch Hl Ho Ha].
+  destruct o;
+    try (rewrite plain_ghost by exact I; eapply frame_ginv_l; [apply plain_frame; exact I|exact HI]).
   - (* CreateOffer *)
-    cbn [chain_guard] in Hg.
+    cbn [chain_guard_light] in Hg.
     cbn [step] in *. destruct (create_offer s) as [s' r] eqn:E. cbn [fst snd] in *.
     pose proof (create_offer_frame s) as (Fs & Fc & Fp & Fa & Fo). rewrite E in Fs, Fc, Fp, Fa, Fo. cbn [fst snd] in *.
     assert (Hl' : forall g', g_applied g' = g_applied g -> link s' g').
@@ -287,66 +280,57 @@ Proof.
     { intros g' Eg Ef. unfold answering, g_last. rewrite Fs, Fa, Eg, Ef. exact Ha. }
     unfold ghost_step. cbn [applies]. destruct r as [d|e|].
     + (* a new offer *)
-      apply Build_ginv.
-      * exact Hinv'.
+      apply Build_ginv_l.
       * exact Hch.
-      * exact Hnd.
       * apply Hl'. reflexivity.
       * cbn [g_applied g_offer_fresh g_answer_fresh]. intros Hst _. exists d. split; [exact Fo|]. rewrite Fs in Hst.
-        split.
-        -- (* it extends the description applied last *)
-           unfold link in Hl. rewrite Hst in Hl. destruct Hl as [Hp Hc].
-           unfold g_last. cbn [g_applied]. fold (g_last g).
-           destruct (cur_remote s) as [R|] eqn:C.
-           ++ destruct Hc as [-> Hus]. unfold prefix_of.
-              destruct (offer_extends_remote_lemma s s' d R E) as [extra Hx].
-              ** unfold offer_remote.
-                 assert (Ec : cur_remote (offer_alloc s) = cur_remote s /\ pend_remote (offer_alloc s) = pend_remote s).
-                 { unfold offer_alloc. destruct (alloc_mids _ (trs s)). split; reflexivity. }
-                 destruct Ec as [-> ->]. rewrite C, Hp. reflexivity.
-              ** exact Hus.
-              ** exact (proj2 (proj2 (proj2 Hg))).
-              ** exists extra. exact Hx.
-           ++ rewrite Hc. exact I.
-        -- (* and has pairwise distinct mids *)
-           pose proof (create_offer_c06 s s' d Hinv Hg E) as (_ & Hn & _). exact Hn.
+        unfold link in Hl. rewrite Hst in Hl. destruct Hl as [Hp Hc].
+        unfold g_last. cbn [g_applied]. fold (g_last g).
+        destruct (cur_remote s) as [R|] eqn:C.
+        -- destruct Hc as [-> Hus]. unfold prefix_of.
+           destruct (offer_extends_remote_lemma s s' d R E) as [extra Hx].
+           ++ unfold offer_remote.
+              assert (Ec : cur_remote (offer_alloc s) = cur_remote s /\ pend_remote (offer_alloc s) = pend_remote s).
+              { unfold offer_alloc. destruct (alloc_mids _ (trs s)). split; reflexivity. }
+              destruct Ec as [-> ->]. rewrite C, Hp. reflexivity.
+           ++ exact Hus.
+           ++ exact Hg.
+           ++ exists extra. exact Hx.
+        -- rewrite Hc. exact I.
       * apply Ha'; reflexivity.
-    + apply Build_ginv;
-        [exact Hinv'|exact Hch|exact Hnd|apply Hl'; reflexivity|rewrite Fs, Fo; exact Ho|apply Ha'; reflexivity].
-    + apply Build_ginv;
-        [exact Hinv'|exact Hch|exact Hnd|apply Hl'; reflexivity|rewrite Fs, Fo; exact Ho|apply Ha'; reflexivity].
+    + apply Build_ginv_l;
+        [exact Hch|apply Hl'; reflexivity|rewrite Fs, Fo; exact Ho|apply Ha'; reflexivity].
+    + apply Build_ginv_l;
+        [exact Hch|apply Hl'; reflexivity|rewrite Fs, Fo; exact Ho|apply Ha'; reflexivity].
   - (* CreateAnswer *)
-    cbn [chain_guard] in Hg.
+    cbn [chain_guard_light] in Hg.
     cbn [step] in *. destruct (create_answer s) as [s' r] eqn:E. cbn [fst snd] in *.
     pose proof (create_answer_frame s) as (Fs & Fc & Fp & Fo & Fa). rewrite E in Fs, Fc, Fp, Fo, Fa. cbn [fst snd] in *.
     assert (Hl' : forall g', g_applied g' = g_applied g -> link s' g').
     { intros g' Eg. unfold link, g_last in *. rewrite Fs, Fc, Fp, Eg. exact Hl. }
     assert (Ho' : forall g', g_applied g' = g_applied g -> g_offer_fresh g' = g_offer_fresh g ->
                    sig s' = Stable -> g_offer_fresh g' = true ->
-                   exists d, last_offer s' = Some d /\ prefix_of (g_last g') (sec_mids d) /\ NoDup (sec_mids d)).
+                   exists d, last_offer s' = Some d /\ prefix_of (g_last g') (sec_mids d)).
     { intros g' Eg Ef. unfold g_last. rewrite Fs, Fo, Eg, Ef. exact Ho. }
     unfold ghost_step. cbn [applies]. destruct r as [a|e|].
-    + apply Build_ginv.
-      * exact Hinv'.
+    + apply Build_ginv_l.
       * exact Hch.
-      * exact Hnd.
       * apply Hl'. reflexivity.
       * apply Ho'; reflexivity.
-      * cbn [g_applied g_offer_fresh g_answer_fresh]. intros Hans _. exists a. split; [exact Fa|]. unfold answering in Hans. rewrite Fs in Hans.
+      * cbn [g_applied g_offer_fresh g_answer_fresh]. intros Hans _. exists a. split; [exact Fa|].
+        unfold answering in Hans. rewrite Fs in Hans.
         unfold g_last. cbn [g_applied]. fold (g_last g).
         assert (Hlk : exists R, pend_remote s = Some R /\ g_last g = Some (mids_of_r R) /\ all_usable R).
         { unfold link in Hl. destruct Hans as [Hs|Hs]; rewrite Hs in Hl; exact Hl. }
         destruct Hlk as (R & Hp & -> & Hus). f_equal. symmetry.
         apply (answer_same_positions_lemma s s' a R E); auto.
         unfold remote_desc. rewrite Hp. reflexivity.
-    + apply Build_ginv;
-        [exact Hinv'|exact Hch|exact Hnd|apply Hl'; reflexivity|apply Ho'; reflexivity|
-         unfold answering; rewrite Fs, Fa; exact Ha].
-    + apply Build_ginv;
-        [exact Hinv'|exact Hch|exact Hnd|apply Hl'; reflexivity|apply Ho'; reflexivity|
-         unfold answering; rewrite Fs, Fa; exact Ha].
+    + apply Build_ginv_l;
+        [exact Hch|apply Hl'; reflexivity|apply Ho'; reflexivity|unfold answering; rewrite Fs, Fa; exact Ha].
+    + apply Build_ginv_l;
+        [exact Hch|apply Hl'; reflexivity|apply Ho'; reflexivity|unfold answering; rewrite Fs, Fa; exact Ha].
   - (* SetLocal *)
-    cbn [chain_guard] in Hg. cbn [step] in *.
+    cbn [chain_guard_light] in Hg. cbn [step] in *.
     destruct (set_local s ty) as [s' r] eqn:E. cbn [fst snd] in *.
     unfold ghost_step. cbn [applies].
     destruct (local_next (sig s) ty) as [g'|] eqn:N.
@@ -354,12 +338,10 @@ Proof.
       destruct (local_next_cases _ _ _ N) as [(-> & Hs & ->)|[(-> & Hs & ->)|(-> & Hs & ->)]].
       * (* the offer is applied *)
         destruct Fr as [Fc Fp].
-        destruct (Ho Hs Hg) as (d & Ed & Hpre & Hnd1).
+        destruct (Ho Hs Hg) as (d & Ed & Hpre).
         rewrite Ed. cbn [mids_of_l].
-        apply Build_ginv; cbn [g_applied g_offer_fresh g_answer_fresh].
-        -- exact Hinv'.
+        apply Build_ginv_l; cbn [g_applied g_offer_fresh g_answer_fresh].
         -- apply chain_push; assumption.
-        -- constructor; assumption.
         -- unfold link. rewrite Fs. exact I.
         -- intros _ [=].
         -- unfold answering. rewrite Fs. intros [[=]|[=]].
@@ -370,12 +352,8 @@ Proof.
         assert (Hlk : exists R, pend_remote s = Some R /\ g_last g = Some (mids_of_r R) /\ all_usable R).
         { unfold link in Hl. rewrite Hs in Hl. exact Hl. }
         destruct Hlk as (R & Hp & HR & Hus).
-        apply Build_ginv; cbn [g_applied g_offer_fresh g_answer_fresh].
-        -- exact Hinv'.
+        apply Build_ginv_l; cbn [g_applied g_offer_fresh g_answer_fresh].
         -- apply chain_push; [assumption|]. apply prefix_of_same. exact Hlast.
-        -- constructor; [|assumption].
-           unfold g_last in Hlast. destruct (g_applied g) as [|p rest]; [discriminate|].
-           injection Hlast as <-. inversion Hnd; assumption.
         -- unfold link. rewrite Fs. exists R. rewrite Fp. split; [exact Hp|]. split; [|exact Hus].
            unfold g_last. cbn [g_applied hd_error]. rewrite <- HR. symmetry. exact Hlast.
         -- rewrite Fs. intros [=].
@@ -388,12 +366,8 @@ Proof.
         assert (Hlk : exists R, pend_remote s = Some R /\ g_last g = Some (mids_of_r R) /\ all_usable R).
         { unfold link in Hl. destruct Hs as [Hs|Hs]; rewrite Hs in Hl; exact Hl. }
         destruct Hlk as (R & Hp & HR & Hus).
-        apply Build_ginv; cbn [g_applied g_offer_fresh g_answer_fresh].
-        -- exact Hinv'.
+        apply Build_ginv_l; cbn [g_applied g_offer_fresh g_answer_fresh].
         -- apply chain_push; [assumption|]. apply prefix_of_same. exact Hlast.
-        -- constructor; [|assumption].
-           unfold g_last in Hlast. destruct (g_applied g) as [|p rest]; [discriminate|].
-           injection Hlast as <-. inversion Hnd; assumption.
         -- unfold link. rewrite Fs, Fp, Fc, Hp. split; [reflexivity|]. split; [|exact Hus].
            unfold g_last. cbn [g_applied hd_error]. rewrite <- HR. symmetry. exact Hlast.
         -- intros _ [=].
@@ -401,7 +375,7 @@ Proof.
     + (* rejected: nothing changes *)
       pose proof (applies_none_frame_local s ty N) as Es. rewrite E in Es. cbn [fst] in Es. subst s'. exact HI.
   - (* SetRemote *)
-    cbn [chain_guard] in Hg. destruct Hg as [Hrd Hg]. cbn [step] in *.
+    cbn [chain_guard_light] in Hg. cbn [step] in *.
     destruct (set_remote s ty d) as [s' r] eqn:E. cbn [fst snd] in *.
     unfold ghost_step. cbn [applies].
     destruct (remote_next (sig s) ty) as [g'|] eqn:N.
@@ -410,49 +384,143 @@ Proof.
       destruct (remote_next_cases _ _ _ N) as [(-> & Hs & ->)|[(-> & Hs & ->)|(-> & Hs & ->)]].
       * (* a remote offer *)
         destruct Fr as [Fc Fp].
-        apply Build_ginv; cbn [g_applied g_offer_fresh g_answer_fresh].
-        -- exact Hinv'.
+        apply Build_ginv_l; cbn [g_applied g_offer_fresh g_answer_fresh].
         -- apply chain_push; assumption.
-        -- constructor; [apply nodup_mids_of_r; exact Hrd|assumption].
         -- unfold link. rewrite Fs. exists d. split; [exact Fp|]. split; [reflexivity|exact Hus].
         -- rewrite Fs. intros [=].
         -- intros _ [=].
       * (* a remote provisional answer *)
         destruct Fr as [Fc Fp].
-        apply Build_ginv; cbn [g_applied g_offer_fresh g_answer_fresh].
-        -- exact Hinv'.
+        apply Build_ginv_l; cbn [g_applied g_offer_fresh g_answer_fresh].
         -- apply chain_push; [assumption|]. apply prefix_of_same. exact Hg.
-        -- constructor; [apply nodup_mids_of_r; exact Hrd|assumption].
         -- unfold link. rewrite Fs. exists d. split; [exact Fp|]. split; [reflexivity|exact Hus].
         -- rewrite Fs. intros [=].
         -- unfold answering. rewrite Fs. intros [[=]|[=]].
       * (* the remote answer *)
         destruct Fr as [Fc Fp].
-        apply Build_ginv; cbn [g_applied g_offer_fresh g_answer_fresh].
-        -- exact Hinv'.
+        apply Build_ginv_l; cbn [g_applied g_offer_fresh g_answer_fresh].
         -- apply chain_push; [assumption|]. apply prefix_of_same. exact Hg.
-        -- constructor; [apply nodup_mids_of_r; exact Hrd|assumption].
         -- unfold link. rewrite Fs, Fp, Fc. split; [reflexivity|]. split; [reflexivity|exact Hus].
         -- intros _ [=].
         -- unfold answering. rewrite Fs. intros [[=]|[=]].
     + pose proof (applies_none_frame_remote s ty d N) as Es. rewrite E in Es. cbn [fst] in Es. subst s'. exact HI.
 Qed.
 
+Lemma chain_guard_light_of s g o : chain_guard s g o -> chain_guard_light s g o.
+Proof.
+  destruct o; cbn [chain_guard chain_guard_light]; auto.
+  - intros (_ & _ & _ & H). exact H.
+  - intros [_ H]. exact H.
+Qed.
+
+(* the duplicate-free part, on top of the extension part *)
+Lemma gstep_ginv_d s g o :
+  ginv_l s g -> ginv_d s g -> chain_guard s g o ->
+  ginv_d (fst (step s o)) (ghost_step g s o (snd (step s o))).
+Proof.
+  intros HL HD Hg. pose proof HL as [Hch Hl Ho Ha]. pose proof HD as [Hinv Hnd Hod].
+  assert (Hinv' : inv (fst (step s o))).
+  { apply step_inv; [exact Hinv| |].
+    - intros ty d ->. exact (proj1 Hg).
+    - intros ->. exact (proj1 Hg). }
+  destruct o;
+    try (rewrite plain_ghost by exact I; eapply frame_ginv_d; [apply plain_frame; exact I|exact Hinv'|exact HD]).
+  - (* CreateOffer *)
+    cbn [chain_guard] in Hg.
+    cbn [step] in *. destruct (create_offer s) as [s' r] eqn:E. cbn [fst snd] in *.
+    pose proof (create_offer_frame s) as (Fs & Fc & Fp & Fa & Fo). rewrite E in Fs, Fc, Fp, Fa, Fo. cbn [fst snd] in *.
+    unfold ghost_step. cbn [applies]. destruct r as [d|e|].
+    + apply Build_ginv_d; cbn [g_applied g_offer_fresh]; [exact Hinv'|exact Hnd|].
+      intros _ _. exists d. split; [exact Fo|].
+      pose proof (create_offer_c06 s s' d Hinv Hg E) as (_ & Hn & _). exact Hn.
+    + apply Build_ginv_d; [exact Hinv'|exact Hnd|rewrite Fs, Fo; exact Hod].
+    + apply Build_ginv_d; [exact Hinv'|exact Hnd|rewrite Fs, Fo; exact Hod].
+  - (* CreateAnswer *)
+    cbn [step] in *. destruct (create_answer s) as [s' r] eqn:E. cbn [fst snd] in *.
+    pose proof (create_answer_frame s) as (Fs & Fc & Fp & Fo & Fa). rewrite E in Fs, Fc, Fp, Fo, Fa. cbn [fst snd] in *.
+    unfold ghost_step. cbn [applies].
+    destruct r as [a|e|]; (apply Build_ginv_d; cbn [g_applied g_offer_fresh]; [exact Hinv'|exact Hnd|rewrite Fs, Fo; exact Hod]).
+  - (* SetLocal *)
+    cbn [chain_guard] in Hg. cbn [step] in *.
+    destruct (set_local s ty) as [s' r] eqn:E. cbn [fst snd] in *.
+    unfold ghost_step. cbn [applies].
+    destruct (local_next (sig s) ty) as [g'|] eqn:N.
+    + pose proof (set_local_fields s ty g' N) as (Fs & Fo & Fa & Fr). rewrite E in Fs, Fo, Fa, Fr. cbn [fst] in *.
+      destruct (local_next_cases _ _ _ N) as [(-> & Hs & ->)|[(-> & Hs & ->)|(-> & Hs & ->)]].
+      * destruct (Hod Hs Hg) as (d & Ed & Hnd1). rewrite Ed. cbn [mids_of_l].
+        apply Build_ginv_d; cbn [g_applied g_offer_fresh]; [exact Hinv'|constructor; assumption|intros _ [=]].
+      * destruct (Ha (or_introl Hs) Hg) as (a & Ea & Hlast). rewrite Ea. cbn [mids_of_l].
+        apply Build_ginv_d; cbn [g_applied g_offer_fresh]; [exact Hinv'| |intros _ [=]].
+        constructor; [|assumption].
+        unfold g_last in Hlast. destruct (g_applied g) as [|p rest]; [discriminate|].
+        injection Hlast as <-. inversion Hnd; assumption.
+      * assert (Hans : answering s) by exact Hs.
+        destruct (Ha Hans Hg) as (a & Ea & Hlast). rewrite Ea. cbn [mids_of_l].
+        apply Build_ginv_d; cbn [g_applied g_offer_fresh]; [exact Hinv'| |intros _ [=]].
+        constructor; [|assumption].
+        unfold g_last in Hlast. destruct (g_applied g) as [|p rest]; [discriminate|].
+        injection Hlast as <-. inversion Hnd; assumption.
+    + pose proof (applies_none_frame_local s ty N) as Es. rewrite E in Es. cbn [fst] in Es. subst s'. exact HD.
+  - (* SetRemote *)
+    cbn [chain_guard] in Hg. destruct Hg as [Hrd Hg]. cbn [step] in *.
+    destruct (set_remote s ty d) as [s' r] eqn:E. cbn [fst snd] in *.
+    unfold ghost_step. cbn [applies].
+    destruct (remote_next (sig s) ty) as [g'|] eqn:N.
+    + apply Build_ginv_d; cbn [g_applied g_offer_fresh];
+        [exact Hinv'|constructor; [apply nodup_mids_of_r; exact Hrd|assumption]|intros _ [=]].
+    + pose proof (applies_none_frame_remote s ty d N) as Es. rewrite E in Es. cbn [fst] in Es. subst s'. exact HD.
+Qed.
+
 (* along a history *)
-Lemma grun_ginv ops : forall s g,
-  ginv s g ->
-  (forall s1 g1 o, In (s1, g1, o) (gtrace_from s g ops) -> chain_guard s1 g1 o) ->
-  ginv (fst (grun_from s g ops)) (snd (grun_from s g ops)).
+Lemma grun_ginv_l ops : forall s g,
+  ginv_l s g ->
+  (forall s1 g1 o, In (s1, g1, o) (gtrace_from s g ops) -> chain_guard_light s1 g1 o) ->
+  ginv_l (fst (grun_from s g ops)) (snd (grun_from s g ops)).
 Proof.
   induction ops as [|o rest IH]; intros s g HI Hg; [exact HI|].
   cbn [grun_from gtrace_from] in *. destruct (step s o) as [s' out] eqn:E.
   apply IH.
-  - pose proof (gstep_ginv s g o HI) as H. rewrite E in H. cbn [fst snd] in H. apply H.
+  - pose proof (gstep_ginv_l s g o HI) as H. rewrite E in H. cbn [fst snd] in H. apply H.
     apply Hg. left. reflexivity.
   - intros s1 g1 o1 Hin. apply Hg. right. exact Hin.
 Qed.
 
-(* ---------- the chain theorem ---------- *)
+Lemma grun_ginv_d ops : forall s g,
+  ginv_l s g -> ginv_d s g ->
+  (forall s1 g1 o, In (s1, g1, o) (gtrace_from s g ops) -> chain_guard s1 g1 o) ->
+  ginv_d (fst (grun_from s g ops)) (snd (grun_from s g ops)).
+Proof.
+  induction ops as [|o rest IH]; intros s g HL HD Hg; [exact HD|].
+  cbn [grun_from gtrace_from] in *. destruct (step s o) as [s' out] eqn:E.
+  assert (Hgo : chain_guard s g o) by (apply Hg; left; reflexivity).
+  apply IH.
+  - pose proof (gstep_ginv_l s g o HL (chain_guard_light_of _ _ _ Hgo)) as H. rewrite E in H. exact H.
+  - pose proof (gstep_ginv_d s g o HL HD Hgo) as H. rewrite E in H. exact H.
+  - intros s1 g1 o1 Hin. apply Hg. right. exact Hin.
+Qed.
+
+(* ---------- the chain theorems ---------- *)
+(* extension alone, under the light guard *)
+Lemma chain_extends_lemma ops :
+  hist_guard_light ops ->
+  forall i j di dj, (i < j)%nat ->
+    nth_error (applied ops) i = Some di -> nth_error (applied ops) j = Some dj ->
+    exists extra, dj = di ++ extra.
+Proof.
+  intros Hg i j di dj Hij Hi Hj.
+  pose proof (grun_ginv_l ops init ghost0 ginv_l_init Hg) as [Hch _ _ _].
+  pose proof (grun_applied ops init ghost0) as Ea. cbn [ghost0 g_applied] in Ea. rewrite app_nil_r in Ea.
+  fold (applied ops) in Ea. rewrite Ea in Hch.
+  destruct (nth_error_two _ _ _ _ _ Hij Hi Hj) as (l1 & l2 & l3 & El).
+  rewrite El in Hch. rewrite rev_app_distr in Hch. cbn [rev] in Hch.
+  rewrite rev_app_distr in Hch. cbn [rev] in Hch. rewrite <- !app_assoc in Hch. cbn [List.app] in Hch.
+  eapply chain_rev_between. exact Hch.
+Qed.
+
+Lemma hist_guard_light_of ops : hist_guard ops -> hist_guard_light ops.
+Proof. intros H s g o Hin. apply chain_guard_light_of. exact (H s g o Hin). Qed.
+
+(* extension, pairwise distinct mids, equal indices, under the full guard *)
 Lemma chain_lemma ops :
   hist_guard ops ->
   forall i j di dj, (i < j)%nat ->
@@ -461,14 +529,10 @@ Lemma chain_lemma ops :
     (forall m x y, nth_error di x = Some m -> nth_error dj y = Some m -> x = y).
 Proof.
   intros Hg i j di dj Hij Hi Hj.
-  pose proof (grun_ginv ops init ghost0 ginv_init Hg) as [_ Hch Hnd _ _ _].
+  pose proof (chain_extends_lemma ops (hist_guard_light_of ops Hg) i j di dj Hij Hi Hj) as Hext.
+  pose proof (grun_ginv_d ops init ghost0 ginv_l_init ginv_d_init Hg) as [_ Hnd _].
   pose proof (grun_applied ops init ghost0) as Ea. cbn [ghost0 g_applied] in Ea. rewrite app_nil_r in Ea.
-  fold (applied ops) in Ea. rewrite Ea in Hch, Hnd.
-  destruct (nth_error_two _ _ _ _ _ Hij Hi Hj) as (l1 & l2 & l3 & El).
-  assert (Hext : extends di dj).
-  { rewrite El in Hch. rewrite rev_app_distr in Hch. cbn [rev] in Hch.
-    rewrite rev_app_distr in Hch. cbn [rev] in Hch. rewrite <- !app_assoc in Hch. cbn [List.app] in Hch.
-    eapply chain_rev_between. exact Hch. }
+  fold (applied ops) in Ea. rewrite Ea in Hnd.
   assert (Hn : NoDup dj).
   { rewrite Forall_forall in Hnd. apply Hnd. apply in_rev. rewrite rev_involutive.
     eapply nth_error_In. exact Hj. }
@@ -583,3 +647,28 @@ Lemma ex_chain_ok :
   hist_guard ex_chain /\
   map (@List.length _) (applied ex_chain) = [4; 4; 4; 5; 5; 5; 8; 8]%nat.
 Proof. split; [apply hist_guardb_sound; vm_compute; reflexivity|vm_compute; reflexivity]. Qed.
+
+(* ---------- the stale clauses of the guard are needed ---------- *)
+(* an offer created before an exchange started by the remote side and applied
+   after it: pion accepts it (it still equals pc.lastOffer); it does not extend
+   the descriptions of that exchange *)
+Definition ex_stale_offer : list op :=
+  [AddTransceiver MAudio Sendrecv; CreateOffer;
+   SetRemote TOffer (rd [rs KVideo "v" (Some Sendonly)] "BUNDLE v"); CreateAnswer; SetLocal TAnswer;
+   SetLocal TOffer].
+Lemma ex_stale_offer_applied :
+  applied ex_stale_offer = [[Some "v"]; [Some "v"]; [Some "0"]] /\
+  map (fun e => match e with (s, g, o) => chain_guardb s g o end) (gtrace ex_stale_offer) =
+    [true; true; true; true; true; false].
+Proof. split; vm_compute; reflexivity. Qed.
+
+(* an answer created for an earlier remote offer and applied to a later one *)
+Definition ex_stale_answer : list op :=
+  [SetRemote TOffer (rd [rs KAudio "a" (Some Sendrecv)] "BUNDLE a"); CreateAnswer; SetLocal TAnswer;
+   SetRemote TOffer (rd [rs KAudio "a" (Some Sendrecv); rs KVideo "b" (Some Sendonly)] "BUNDLE a b");
+   SetLocal TAnswer].
+Lemma ex_stale_answer_applied :
+  applied ex_stale_answer = [[Some "a"]; [Some "a"]; [Some "a"; Some "b"]; [Some "a"]] /\
+  map (fun e => match e with (s, g, o) => chain_guardb s g o end) (gtrace ex_stale_answer) =
+    [true; true; true; true; false].
+Proof. split; vm_compute; reflexivity. Qed.
